@@ -24,54 +24,135 @@ import shutil
 import subprocess
 import sys
 import tempfile
+import time
 
 import fw
 
-LEAN_PROPS = ["NmlVerif.Props.C20"]
-LEAN_EXTRA = ["NmlVerif.Gen.Regen", "NmlVerif.DrvCommon"]
+BASE_PROPS = ["NmlVerif.Props.C20", "NmlVerif.Props.C20Specs", "NmlVerif.Props.C20Methods", "NmlVerif.Props.C20RegenModule", "NmlVerif.Props.C20Types", "NmlVerif.Props.C20Version",
+              "NmlVerif.Props.C20Finding", "NmlVerif.Props.C20Regen", "NmlVerif.Props.C20RegenUser"]
+# + one generated module per class with helper methods (Gen/C20Pairs/<Class>.lean) — filled in by regenerate()
+LEAN_PROPS = list(BASE_PROPS)
+LEAN_EXTRA = ["NmlVerif.Gen.Regen", "NmlVerif.Gen.RegenFresh", "NmlVerif.Gen.RegenShipped", "NmlVerif.Gen.RegenNames",
+              "NmlVerif.DrvCommon"]
 LEVEL = "proof"
-RULE = ("exhaustive over the domain: every (binding class, user statement) pair of nml.py / helper_methods.py and every "
-        "(binding class, complexType) pair; a method pair is non-trivial always (a real helper body), a class without "
-        "helpers is counted as trivial; plus generated class_names values (str/list/tuple/None, near-miss names) for "
-        "the match_name correspondence and seeded one-sided text mutants of a scratch copy for translator validation; "
+RULE = ("exhaustive over the domain: every (binding class, user statement) pair of nml.py / helper_methods.py, every "
+        "(class, class-body statement) pair of the shipped nml.py versus the file regenerate-nml.sh produces now (re-run "
+        "on every check), and every (binding class, complexType) pair; a method pair is non-trivial always (a real "
+        "method body), a class without helpers is counted as trivial; plus generated class_names values "
+        "(str/list/tuple/None, near-miss names) for the match_name correspondence and seeded one-sided text mutants of a "
+        "scratch copy (helper methods, generated methods, %(class_name)s sources) for translator validation; "
         "distinct = distinct (kind, class, position, name)")
 TRUST = [
-    "translators/helpers_extract.py: AST normalisation (docstrings removed, ast.dump without positions), the rule "
-    "'user statements = everything after _buildChildren', SHA-256/128 digests (collision-freedom is a hypothesis of the "
-    "lifting theorems), name interning — validated every run (mutants, byte-code oracle), not verified: the weak link",
-    "generateDS is deterministic in the schema-driven part of nml.py and writes user methods last, in METHOD_SPECS "
-    "order (its generateUserMethods is exercised by the correspondence stream when importable; generateDS is not run)",
+    "translators/helpers_extract.py + regen_run.py: AST normalisation (docstrings of defs removed, ast.dump without "
+    "positions), the rule 'user statements = everything after _buildChildren', SHA-256/128 digests (collision-freedom is "
+    "a hypothesis of the lifting theorems), name interning — validated every run (mutants, byte-code oracle, behavioural "
+    "witness search), not verified: the weak link",
+    "the regeneration is RE-RUN on every check (regenerate-nml.sh -a, unmodified, in a scratch copy): generateDS, "
+    "GNU sed, bash, ruff and the annotate_nml step are executed, not modelled; the installed generateDS (2.44.3) is "
+    "newer than the one that wrote the shipped file (2.44.1): normalisation N1 removes exactly the statement "
+    "`<Class>.superclass.validate_(self, gds_collector, recursive)` from the regenerated `validate_` methods (count "
+    "kernel-checked = number of classes with a schema base); N2: module-level imports compared as sorted lists "
+    "(the repository's pre-commit `ruff --select I --fix` re-orders them)",
     "MethodSpec.__init__/match_name/get_interpolated_source are pinned as text in the translator; insertionRule is a "
-    "hand model of match_name tied by correspondence",
+    "hand model of match_name tied by correspondence and, second pass, by the kernel-checked comparison of the raw "
+    "generateDS output with the model on all 212 classes",
+    "the role of a schema-file occurrence (`nameTable` for neuroml/nml/config.py, `schema` otherwise) is assigned by "
+    "the translator from the file path",
 ]
 ASSUMPTIONS = [
-    "digests are collision-free on the statements involved (hypothesis `hinj` of c20_regeneration_identity)",
-    "hand edits to the schema-driven (generated) methods of nml.py are out of scope: only statements after "
-    "_buildChildren, and non-generated names before it, are compared",
-    "no MethodSpec source uses %(class_name)s (translator reports a gap otherwise)",
+    "digests are collision-free on the statements involved (hypothesis `hinj` of c20_regeneration_identity / "
+    "c20_whole_file_identity)",
+    "generateDS, sed and ruff are deterministic (the regeneration is run once per check)",
+    "comments, formatting, doc strings of functions and the order of module-level imports are not behaviour",
 ]
 
 GEN = os.path.join(fw.LEAN, "NmlVerif", "Gen", "Regen.lean")
+GEN_FRESH = os.path.join(fw.LEAN, "NmlVerif", "Gen", "RegenFresh.lean")
+GEN_SHIPPED = os.path.join(fw.LEAN, "NmlVerif", "Gen", "RegenShipped.lean")
+GEN_NAMES = os.path.join(fw.LEAN, "NmlVerif", "Gen", "RegenNames.lean")
+PAIRS_DIR = os.path.join(fw.LEAN, "NmlVerif", "Gen", "C20Pairs")
 _STATE = {}
 
 
 def _load(path, name):
     spec = importlib.util.spec_from_file_location(name, path)
     mod = importlib.util.module_from_spec(spec)
+    sys.modules[name] = mod
     spec.loader.exec_module(mod)
     return mod
 
 
-TR = _load(os.path.join(fw.VERIF, "translators", "helpers_extract.py"), "c20_helpers_extract")
+RR = _load(os.path.join(fw.VERIF, "translators", "regen_run.py"), "c20_regen_run")
+BH = _load(os.path.join(fw.VERIF, "harness", "c20_behaviour.py"), "c20_behaviour")
+TR = RR.HX          # translators/helpers_extract.py (one module object for both)
+
+
+def lean_ident(name):
+    return re.sub(r"[^A-Za-z0-9_]", "_", name)
+
+
+def pair_modules(data, I):
+    """one generated Lean module per class that has (or should have) user statements + one for all the others"""
+    out, listed = {}, []
+    for c in data["binding"]:
+        if c["items"] or expected_items(data, c["name"]):
+            listed.append(c["name"])
+    seen = set()
+    for cls in listed:
+        ident = lean_ident(cls)
+        if ident in seen:
+            continue
+        seen.add(ident)
+        out["NmlVerif.Gen.C20Pairs." + ident] = (
+            "import NmlVerif.Props.C20\nimport NmlVerif.Gen.Regen\n"
+            "/-! GENERATED by harness/props/c20.py (regenerate) — do not edit. One obligation: the user statements of class\n"
+            "    `%s` in nml.py are, in order, those of the specs of helper_methods.py that name it. -/\n"
+            "namespace NmlVerif.C20.Pairs\n"
+            "theorem helpers_%s : NmlVerif.C20.ClassHelpersAgree NmlVerif.Gen.Regen.tables %d := by decide +kernel\n"
+            "end NmlVerif.C20.Pairs\n" % (cls, ident, I(cls)))
+    out["NmlVerif.Gen.C20Pairs.OtherClasses_"] = (
+        "import NmlVerif.Props.C20\nimport NmlVerif.Gen.Regen\n"
+        "/-! GENERATED by harness/props/c20.py (regenerate) — do not edit. The classes without a module of their own:\n"
+        "    no helper methods expected, none shipped. -/\n"
+        "namespace NmlVerif.C20.Pairs\n"
+        "theorem helpers_of_all_other_classes : NmlVerif.C20.OtherClassesHelpersAgree NmlVerif.Gen.Regen.tables [%s] := by\n"
+        "  decide +kernel\n"
+        "end NmlVerif.C20.Pairs\n" % ", ".join(str(I(c)) for c in listed))
+    return out
 
 
 def regenerate(ctx):
     cache = _STATE.setdefault("cache", {})
+    memo = _STATE.setdefault("memo", {})
+    t0 = time.time()
     data = TR.extract(fw.REPO, cache)
-    text, _ = TR.emit_lean(data)
+    t1 = time.time()
+    full = RR.build_full(fw.REPO, memo)
+    t2 = time.time()
+    I = TR.Interner()
+    text, _ = TR.emit_lean(data, I, with_names=False)
+    fresh = RR.emit_fresh(full, I)
+    shipped = RR.emit_shipped(full, I)
+    pairs = pair_modules(data, I)
     TR.write_if_changed(GEN, text)
-    _STATE["data"] = data
-    return list(data["gaps"])
+    TR.write_if_changed(GEN_FRESH, fresh)
+    TR.write_if_changed(GEN_SHIPPED, shipped)
+    os.makedirs(PAIRS_DIR, exist_ok=True)
+    keep = set()
+    for mod, txt in pairs.items():
+        f = os.path.join(PAIRS_DIR, mod.rsplit(".", 1)[1] + ".lean")
+        keep.add(os.path.basename(f))
+        TR.write_if_changed(f, txt)
+    for f in os.listdir(PAIRS_DIR):
+        if f.endswith(".lean") and f not in keep:
+            os.remove(os.path.join(PAIRS_DIR, f))
+    TR.write_if_changed(GEN_NAMES, RR.emit_names(I))
+    LEAN_PROPS[:] = list(BASE_PROPS) + sorted(pairs)
+    _STATE["data"], _STATE["full"] = data, full
+    _STATE["timing"] = {"extract_s": round(t1 - t0, 2), "regeneration_s": full["seconds"], "regeneration_reused": full["reused"],
+                        "tables_s": round(t2 - t1 - (0 if full["reused"] else full["seconds"]), 2),
+                        "emit_s": round(time.time() - t2, 2)}
+    return list(data["gaps"]) + list(full["gaps"])
 
 
 # ================================================================================================ 1. table predicates
@@ -81,7 +162,8 @@ def expected_items(data, cls):
     for sp in data["specs"]:
         cn = sp["class_names"]
         if (cn["kind"] == "str" and cn["v"] == cls) or (cn["kind"] == "list" and cls in cn["v"]):
-            out += [(a, b, c, sp) for a, b, c in sp["items"]]
+            its = dict(sp.get("per_class", [])).get(cls, sp["items"])      # %(class_name)s: the source as interpolated for cls
+            out += [(a, b, c, sp) for a, b, c in its]
     return out
 
 
@@ -167,6 +249,24 @@ def table_failures(data, only=None):
             out.append(("C20:import-only-in-template:%s" % x,
                         "%s has `%s`, the shipped nml.py does not: a helper relying on it fails until the bindings are "
                         "regenerated" % (imp["template_file"], x), {"kind": "import", "stmt": x}))
+    # second pass: derivation (extension base = Python base class) and every occurrence of a schema file name
+    xb = dict(data["schema"].get("bases", []))
+    for c in data["binding"]:
+        if c["name"] in xb:
+            want = [xb[c["name"]]] if xb[c["name"]] else ["GeneratedsSuper"]
+            if c.get("bases") != want:
+                out.append(("C20:base-differs:%s" % c["name"],
+                            "binding class %s derives from %s but its complexType extends %s (regeneration writes `class %s(%s)`)"
+                            % (c["name"], c.get("bases"), xb[c["name"]] or "nothing", c["name"], ", ".join(want)),
+                            {"kind": "type", "class": c["name"], "bases": c.get("bases"), "xsd_base": xb[c["name"]]}))
+    for o in data.get("occurrences", []):
+        if o["schema_file"] != data["versions"]["header_xsd"]:
+            out.append(("C20:version:occurrence-differs:%s" % o["file"],
+                        "%s:%s names schema %r (`%s`) but the bindings' header names %r%s"
+                        % (o["file"], o["line"], o["schema_file"], o["what"], data["versions"]["header_xsd"],
+                           " — generateds_config.py derives the member NameTable from this file" if o["role"] == "nameTable" else ""),
+                        {"kind": "version", "check": "occurrence", "file": o["file"], "line": o["line"],
+                         "schema_file": o["schema_file"], "role": o["role"]}))
     v = data["versions"]
     hx = v["header_xsd"]
     checks = [
@@ -194,6 +294,333 @@ def table_failures(data, only=None):
         if not ok:
             out.append(("C20:version:" + k, what, {"kind": "version", "check": k}))
     return out
+
+
+
+# ================================================================================================ 1b. the re-run regeneration
+def member_facets(stmt):
+    """`member_data_items_ = [MemberSpec_(name, type, container, optional, child_attrs, choice), …]` -> {name: facets}"""
+    out = {}
+    try:
+        for call in stmt.value.elts:
+            a = [ast.literal_eval(x) for x in call.args]
+            a += [None] * (6 - len(a))
+            d = {"type": a[1], "container(list)": a[2], "optional": a[3], "choice": a[5]}
+            for k, v in (a[4] or {}).items():
+                d["xsd:" + k] = v
+            out[a[0]] = d
+    except Exception:  # noqa
+        return None
+    return out
+
+
+def facet_differences(full, cls):
+    rs = {c["name"]: c for c in full["regen"]["classes"]}.get(cls)
+    ss = {c["name"]: c for c in full["shipped"]["classes"]}.get(cls)
+    if not rs or not ss:
+        return []
+    fr = next((member_facets(m[2]) for m in rs["members"] if m[0] == "<assign member_data_items_>"), None)
+    fs = next((member_facets(m[2]) for m in ss["members"] if m[0] == "<assign member_data_items_>"), None)
+    if fr is None or fs is None:
+        return []
+    out = []
+    for nm in sorted(set(fr) | set(fs)):
+        a, b = fr.get(nm), fs.get(nm)
+        if a is None or b is None:
+            out.append({"member": nm, "facet": "exists", "regenerated_from_schema": a is not None, "shipped": b is not None})
+            continue
+        for k in sorted(set(a) | set(b)):
+            if a.get(k) != b.get(k):
+                out.append({"member": nm, "facet": k, "regenerated_from_schema": a.get(k), "shipped": b.get(k)})
+    return out
+
+
+def regen_failures(full, already):
+    """differences between the file regenerate-nml.sh produces now and the shipped nml.py, as (key, what, case);
+    `already` = (class, member) pairs the helper table comparison has named (not reported twice)"""
+    out = []
+    if not full.get("ok"):
+        return out
+    for d in RR.compare_tables(full["regen"], full["shipped"]):
+        k, cls, m = d["kind"], d.get("class"), d.get("member")
+        case = {"kind": "regen", "class": cls, "member": m, "difference": k, "index": d.get("index")}
+        if cls is not None and (cls, m) in already and k in ("differs", "only-in-bindings", "missing-in-bindings"):
+            continue
+        if k == "differs" and m == "<assign member_data_items_>":
+            # second pass (C20-4): the (class, complexType) pair compared MEMBER by MEMBER — name the facet
+            for fc in facet_differences(full, cls):
+                out.append(("C20:member-facet-differs:%s.%s:%s" % (cls, fc["member"], fc["facet"]),
+                            "(class %s, complexType %s): member `%s`, facet `%s`: the bundled schema (regenerated MemberSpec table) "
+                            "says %r, the shipped class says %r — schema and bindings no longer correspond member for member"
+                            % (cls, cls, fc["member"], fc["facet"], fc["regenerated_from_schema"], fc["shipped"]),
+                            {"kind": "regen", "class": cls, "member": "validate_", "difference": "facet", "facet": fc}))
+        if k == "differs":
+            fd = d.get("first_difference") or {}
+            case["first_difference"] = fd
+            out.append(("C20:regen-differs:%s.%s" % (cls, m),
+                        "%s.%s: the shipped nml.py differs from what regenerate-nml.sh produces now (generateDS %s re-run); first "
+                        "differing statement at %s: regenerated: `%s`  |  nml.py: `%s`  (a hand edit of generated code is "
+                        "reverted by the next regeneration)" % (cls, m, full["installed_version"], fd.get("where"),
+                                                               fd.get("regenerated"), fd.get("shipped")), case))
+        elif k == "only-in-bindings":
+            case["shipped"] = d.get("shipped")
+            out.append(("C20:regen-only-in-bindings:%s.%s" % (cls, m),
+                        "%s.%s (class-body statement %s: `%s`) is in the shipped nml.py but the regeneration does not write it: "
+                        "neither generateDS nor a MethodSpec accounts for it" % (cls, m, d.get("index"), d.get("shipped")), case))
+        elif k == "missing-in-bindings":
+            case["regenerated"] = d.get("regenerated")
+            out.append(("C20:regen-missing-in-bindings:%s.%s" % (cls, m),
+                        "%s.%s (`%s`) is written by the regeneration but is not in the shipped nml.py"
+                        % (cls, m, d.get("regenerated")), case))
+        elif k == "order":
+            if (cls, None) in already:
+                continue
+            case["expected_order"], case["shipped_order"] = d["expected_order"], d["shipped_order"]
+            out.append(("C20:regen-order:%s" % cls, "%s: same class-body statements as the regenerated class but in another order; "
+                        "first out of place at %s: %s" % (cls, d.get("index"), m), case))
+        elif k == "class-header":
+            out.append(("C20:regen-class-header:%s" % cls, "class header differs: regenerated `%s`, nml.py `%s`"
+                        % (d.get("regenerated"), d.get("shipped")), case))
+        elif k in ("class-only-in-bindings", "class-missing-in-bindings"):
+            out.append(("C20:regen-%s:%s" % (k, cls), "class %s is %s" % (cls, "in nml.py but not written by the regeneration"
+                        if k == "class-only-in-bindings" else "written by the regeneration but not in nml.py"), case))
+        elif k.startswith("module-"):
+            if "first_difference" in d:
+                case["first_difference"] = d["first_difference"]
+            out.append(("C20:regen-%s:%s" % (k, m), "module-level statement %s: %s (%s)" % (m, k, d.get("first_difference")), case))
+        else:
+            out.append(("C20:regen-%s:%s" % (k, m), "module-level import `%s`: %s" % (m, k), case))
+    # the stages of the script
+    raw, sed = dict(full["raw_user"]), dict(full["sed_user"])
+    fin = dict(RR.user_rows(full["regen"]))
+
+    def nd(its):
+        return [(a, b) for a, b, _ in its]
+    for cls in fin:
+        if nd(raw.get(cls, [])) != nd(sed.get(cls, [])) or nd(sed.get(cls, [])) != nd(fin[cls]):
+            out.append(("C20:postprocessing-touches-user:%s" % cls,
+                        "the sed / annotate_nml / ruff steps of regenerate-nml.sh change a user statement of class %s (raw generateDS "
+                        "output %s, after sed %s, final %s)" % (cls, [a for a, _ in nd(raw.get(cls, []))],
+                                                               [a for a, _ in nd(sed.get(cls, []))], [a for a, _ in nd(fin[cls])]),
+                        {"kind": "regen", "class": cls, "member": None, "difference": "postprocessing"}))
+    if full["drift"] and full["regen"]["drift_removed"] != full["regen"]["with_base"]:
+        out.append(("C20:version-drift-unexplained",
+                    "generateDS %s (installed) vs %s (header): %d `superclass.validate_` statements were removed from the regenerated "
+                    "side but %d classes have a schema base class" % (full["installed_version"], full["header_version"],
+                                                                      full["regen"]["drift_removed"], full["regen"]["with_base"]),
+                    {"kind": "regen", "class": None, "member": None, "difference": "drift"}))
+    return out
+
+
+def model_insertion_failures(data, full):
+    """the RAW output of the real generateDS run versus the modelled insertion (Python reading of the Lean model)"""
+    out = []
+    if not full.get("ok"):
+        return out
+    for cls, its in full["raw_user"]:
+        exp = [(a, b) for a, b, _, _ in expected_items(data, cls)]
+        got = [(a, b) for a, b, _ in its]
+        if exp != got:
+            out.append(("C20:generateds-insertion-differs:%s" % cls,
+                        "generateDS (real run, helper_methods.py of the tree) writes the user statements %s into class %s but the "
+                        "modelled insertion (match_name = equality / list membership, METHOD_SPECS order, interpolated source) "
+                        "yields %s" % ([a for a, _ in got], cls, [a for a, _ in exp]),
+                        {"kind": "regen", "class": cls, "member": None, "difference": "insertion"}))
+    return out
+
+
+DRIFT_LINE = re.compile(r"^[ \t]+(\w+)\.superclass\.validate_\(\s*self,\s*gds_collector,\s*recursive,?\s*\)[ \t]*\n", re.M)
+
+
+def regen_exec_text(full):
+    """the regenerated file as executable text with normalisation N1 applied (textually; the count must agree)"""
+    text = full["texts"].get("final")
+    if not text:
+        return None
+    if not full.get("drift"):
+        return text
+    t2, n = DRIFT_LINE.subn("", text)
+    if n != full["regen"]["drift_removed"]:
+        import ast as _ast
+        tree = _ast.parse(text)
+        for node in tree.body:
+            if isinstance(node, _ast.ClassDef):
+                RR.strip_drift(node)
+        return _ast.unparse(tree)
+    return t2
+
+
+def regen_module(nml_mod):
+    """the regenerated bindings as an importable sibling of neuroml.nml.nml (loaded once per process)"""
+    if "regen_mod" in _STATE:
+        return _STATE["regen_mod"]
+    full = _STATE.get("full")
+    mod = None
+    if full and full.get("ok"):
+        text = regen_exec_text(full)
+        try:
+            mod, cleanup = BH.load_module_from_text(text, nml_mod)
+            _STATE["regen_cleanup"] = cleanup
+        except Exception as e:  # noqa
+            _STATE["regen_mod_error"] = repr(e)
+            mod = None
+    _STATE["regen_mod"] = mod
+    return mod
+
+
+def attach_witnesses(ctx, fails, nml_mod, budget=8):
+    """for failures that name a (class, member) pair: search an input on which the two versions BEHAVE differently"""
+    regen = regen_module(nml_mod)
+    done = 0
+    for i, (k, what, case) in enumerate(fails):
+        if case.get("kind") not in ("method", "regen") or done >= budget:
+            continue
+        m = case.get("method") or case.get("member")
+        cls = case.get("class")
+        if case.get("difference") == "class-header":
+            m = "__init__"              # the class itself: base classes / MRO are part of the `construct` comparison
+        if not m or case.get("difference") in ("order", "postprocessing", "insertion", "drift"):
+            continue
+        mm = re.match(r"<assign (\w+)>$", m)
+        if m.startswith("<") and not mm:
+            continue                    # a bare statement (`try:` import block, expression): nothing to call
+        if regen is None:
+            case["behavioural_witness"] = "not searched: the regenerated module could not be loaded (%s)" % (
+                _STATE.get("regen_mod_error") or (_STATE.get("full") or {}).get("why"))
+            continue
+        done += 1
+        try:
+            if cls is None:
+                w, n = BH.find_witness(ctx.rng, nml_mod, regen, None, mm.group(1) if mm else m)
+            else:
+                w, n = BH.find_witness(ctx.rng, nml_mod, regen, cls, m if not mm or m.startswith("<assign member") else m)
+        except Exception as e:  # noqa
+            w, n = None, 0
+            case["behavioural_witness_error"] = repr(e)
+        if case.get("difference") == "facet" and cls:
+            try:
+                xsd = os.path.join(fw.REPO, "neuroml", "nml", _STATE["data"]["versions"]["xsd_read"])
+                dw = BH.document_witness(ctx.rng, nml_mod, regen, cls, xsd)
+            except Exception as e:  # noqa
+                dw = None
+                case["document_witness_error"] = repr(e)
+            if dw:
+                case["document_witness"] = dw
+                what += ("  DOCUMENT WITNESS (%s): bundled schema: %s; shipped bindings validate(recursive=True): %s; regenerated "
+                         "bindings: %s; document: %s" % (dw["path"], dw["bundled_schema"], dw["shipped_bindings_validate"],
+                                                         dw["regenerated_bindings_validate"], dw["document"][:600]))
+        ctx.count("witness-search:%s" % ("found" if w else "none"))
+        case["behavioural_witness"] = w if w else ("none found in %d differential calls: the two versions differ textually; "
+                                                   "no input was found on which they behave differently" % n)
+        if w:
+            what += ("  BEHAVIOURAL WITNESS: on %s, %s — shipped nml.py %s, regenerated %s"
+                     % (w.get("object", ""), w.get("call", ""), w.get("shipped_result"), w.get("regenerated_result")))
+        fails[i] = (k, what, case)
+    return fails
+
+
+def behaviour_null_stream(ctx, data, full, nml_mod, n_generated):
+    """the differential executor on pairs that do NOT differ textually: shipped vs regenerated module must behave alike.
+    This is the part of the tie that executes library code (all helper methods + a sample of generated methods)."""
+    regen = regen_module(nml_mod)
+    if regen is None:
+        return
+    differing = {(d.get("class"), d.get("member")) for d in RR.compare_tables(full["regen"], full["shipped"])}
+    differing |= {(f[2].get("class"), f[2].get("method")) for f in table_failures(data) if f[2].get("kind") == "method"}
+    pairs = []
+    for c in data["binding"]:
+        for a, _, _ in c["items"]:
+            if not a.startswith("<") and (c["name"], a) not in pairs:
+                pairs.append((c["name"], a))
+    helper_pairs = len(pairs)
+    gen = [(c["name"], m[0]) for c in full["shipped"]["classes"] for m in c["members"]
+           if m[0] not in ("<Expr>", "<assign __hash__>", "<assign subclass>", "__hash__")
+           and (c["name"], m[0]) not in pairs and hasattr(nml_mod, c["name"]) and "member_data_items_" in
+           getattr(nml_mod, c["name"]).__dict__]
+    pairs += ctx.rng.sample(gen, min(n_generated, len(gen)))
+    for j, (cls, m) in enumerate(pairs):
+        if (cls, m) in differing or m in ("__hash__",):
+            continue
+        try:
+            w, n = BH.find_witness(ctx.rng, nml_mod, regen, cls, m, n_objects=4 if j >= helper_pairs else 8,
+                                   n_args=3 if j >= helper_pairs else 5, max_calls=24 if j >= helper_pairs else 60)
+        except Exception as e:  # noqa
+            ctx.disagree("behaviour-null", {"class": cls, "member": m}, "search runs", "crash %r" % (e,))
+            continue
+        ctx.corr_evals += n
+        ctx.count("behaviour-null:%s" % ("helper" if j < helper_pairs else "generated"), n)
+        if w and differing:
+            # a textual difference exists (and is reported): methods that CALL the differing one legitimately differ too
+            ctx.count("behaviour-propagated-difference")
+            ctx.extra.setdefault("behaviour_propagated", [])
+            if len(ctx.extra["behaviour_propagated"]) < 8:
+                ctx.extra["behaviour_propagated"].append({"class": cls, "member": m, "call": w.get("call"), "object": w.get("object"),
+                                                          "shipped": w.get("shipped_result"), "regenerated": w.get("regenerated_result")})
+        elif w:
+            ctx.disagree("behaviour-null", {"class": cls, "member": m, "object": w.get("object"), "call": w.get("call")},
+                         w.get("shipped_result"), w.get("regenerated_result"))
+
+
+def run_regen_stream(ctx, data, full):
+    """the whole-file comparison as evaluated by LEAN on the compiled tables versus the Python reading of the same tables"""
+    rc, out = fw.run_driver("C20", [json.dumps({"q": "regendiff"})])
+    if rc != 0 or len(out) != 1:
+        ctx.disagree("driver", "regendiff: rc=%s, %d lines" % (rc, len(out)), "\n".join(out[-3:]), None)
+        return
+    r = json.loads(out[0])
+
+    def pos(exp, got):
+        o = []
+        for i in range(max(len(exp), len(got))):
+            a = exp[i] if i < len(exp) else None
+            b = got[i] if i < len(got) else None
+            if a is None or b is None or (a[0], a[1]) != (b[0], b[1]):
+                o.append([i, a[0] if a else "-", b[0] if b else "-"])
+        return o
+    rmap = {c["name"]: c for c in full["regen"]["classes"]}
+    mine = {}
+    for c in full["shipped"]["classes"]:
+        rr = rmap.get(c["name"])
+        if rr is None:
+            mine[c["name"]] = "class-only-in-bindings"
+        elif rr["bases"] != c["bases"] or [(a, b) for a, b, _ in rr["members"]] != [(a, b) for a, b, _ in c["members"]]:
+            mine[c["name"]] = pos(rr["members"], c["members"])
+        ctx.corr_evals += 1
+    for c in full["regen"]["classes"]:
+        if c["name"] not in {x["name"] for x in full["shipped"]["classes"]}:
+            mine[c["name"]] = "class-missing-in-bindings"
+    lean = {}
+    for e in r.get("classes", []):
+        lean[e["class"]] = e["members"] if e.get("kind") == "differs" else e.get("kind")
+    if lean != mine:
+        ctx.disagree("regendiff", {"what": "classes that differ"}, {k: mine[k] for k in sorted(mine)[:4]},
+                     {k: lean[k] for k in sorted(lean)[:4]})
+    hm = {}
+    for c in data["binding"]:
+        e = [(a, b) for a, b, _, _ in expected_items(data, c["name"])]
+        if e != [(a, b) for a, b, _ in c["items"]]:
+            hm[c["name"]] = pos(e, c["items"])
+        ctx.corr_evals += 1
+    hl = {e["class"]: e["members"] for e in r.get("helpers", [])}
+    if hl != hm:
+        ctx.disagree("regendiff", {"what": "helper tables that differ"}, {k: hm[k] for k in sorted(hm)[:4]},
+                     {k: hl[k] for k in sorted(hl)[:4]})
+    facts = {"nclasses": [len(full["regen"]["classes"]), len(full["shipped"]["classes"])],
+             "nmembers": [sum(len(c["members"]) for c in full["regen"]["classes"]),
+                          sum(len(c["members"]) for c in full["shipped"]["classes"])],
+             "drift": [full["regen"]["drift_removed"], full["regen"]["with_base"]],
+             "module": pos(full["regen"]["module"], full["shipped"]["module"]),
+             "imports": full["regen"]["imports"] == full["shipped"]["imports"],
+             "rawUserIsModel": not model_insertion_failures(data, full),
+             "postprocessing": not any(f[0].startswith("C20:postprocessing") for f in regen_failures(full, set()))}
+    for k, v in facts.items():
+        ctx.corr_evals += 1
+        if r.get(k) != v:
+            ctx.disagree("regendiff", {"field": k}, v, r.get(k))
+    ctx.extra["regeneration"] = {"classes": facts["nclasses"], "class_body_statements": facts["nmembers"],
+                                 "generateds_header": full["header_version"], "generateds_installed": full["installed_version"],
+                                 "n1_statements_removed": full["regen"]["drift_removed"], "classes_with_base": full["regen"]["with_base"],
+                                 "ruff": full["ruff"], "timing": _STATE.get("timing")}
 
 
 # ================================================================================================ 2. run-time oracle
@@ -355,7 +782,10 @@ def gen_match_case(rng, classes):
 def run_match_stream(ctx, hm_mod, data, cases):
     lines, exp = [], []
     for cn, cls in cases:
-        real = bool(hm_mod.MethodSpec(name="x", source="", class_names=cn).match_name(cls))
+        try:
+            real = bool(hm_mod.MethodSpec(name="x", source="", class_names=cn).match_name(cls))
+        except Exception as e:  # noqa  (the modelled rule never raises: a raising match_name is a disagreement, not a crash)
+            real = "raises %s" % type(e).__name__
         cnr = TR.class_names_repr(cn)
         lines.append(json.dumps({"q": "match", "cn": cnr, "cls": cls}))
         exp.append(real)
@@ -536,12 +966,13 @@ def preserve_line(rng, line):
 
 
 def nml_candidates():
-    """[(class, method, FunctionDef)] user defs of nml.py with positions in the file"""
+    """(text, [(class, method, FunctionDef)] user defs of nml.py with positions in the file); the generated defs
+    (before / including `_buildChildren`) with the line span of their class are kept in _STATE["nml_gen_cands"]"""
     if "nml_cands" in _STATE:
         return _STATE["nml_cands"]
     text = open(os.path.join(fw.REPO, "neuroml", "nml", "nml.py")).read()
     tree = ast.parse(text)
-    out = []
+    out, gen = [], []
     for n in tree.body:
         if isinstance(n, ast.ClassDef):
             idx = [i for i, s in enumerate(n.body) if isinstance(s, ast.FunctionDef) and s.name == "_buildChildren"]
@@ -549,7 +980,12 @@ def nml_candidates():
                 for s in n.body[idx[0] + 1:]:
                     if isinstance(s, ast.FunctionDef):
                         out.append((n.name, s.name, s))
+                for s in n.body[:idx[0] + 1]:
+                    if isinstance(s, ast.FunctionDef):
+                        gen.append((n.name, s.name, s, n.lineno, n.end_lineno))
     _STATE["nml_cands"] = (text, out)
+    _STATE["nml_gen_cands"] = gen
+    _STATE["nml_class_spans"] = {n.name: (n.lineno, n.end_lineno) for n in tree.body if isinstance(n, ast.ClassDef)}
     return _STATE["nml_cands"]
 
 
@@ -663,6 +1099,107 @@ def selftest(ctx, data, n_mut, n_keep):
         shutil.rmtree(root, ignore_errors=True)
 
 
+def selftest_generated(ctx, full, nml_mod, n_fast, n_full):
+    """second pass: one-line edits of GENERATED methods of a scratch copy of nml.py (`export`, `__init__`, `validate_…`,
+    `build…`) must be reported by the whole-file comparison at exactly the edited (class, method) pair; comment /
+    blank-line edits must not. Fast path: only the edited class is re-translated; `n_full` edits go through the
+    whole-file translation."""
+    if not full.get("ok"):
+        return
+    nml_text, _ = nml_candidates()
+    gen = _STATE.get("nml_gen_cands") or []
+    if not gen:
+        return
+    lines = nml_text.split("\n")
+    rmap = {c["name"]: c for c in full["regen"]["classes"]}
+    base = {(d.get("class"), d.get("member")) for d in RR.compare_tables(full["regen"], full["shipped"])}
+    done_full = 0
+    for i in range(n_fast + n_full):
+        whole = i >= n_fast
+        cls, meth, fn, c0, c1 = ctx.rng.choice(gen)
+        mode = "mutate" if (i % 4 != 3) else "keep"
+        cand = simple_statement_lines(fn, lines, -1)
+        if not cand or cls not in rmap:
+            continue
+        ln = ctx.rng.choice(cand)
+        new, op = (mutate_line if mode == "mutate" else preserve_line)(ctx.rng, lines[ln - 1])
+        lines2 = list(lines)
+        lines2[ln - 1] = new
+        try:
+            if whole:
+                t = RR.file_table("\n".join(lines2))
+                got = sorted({(d.get("class"), d.get("member")) for d in RR.compare_tables(full["regen"], t)} - base)
+                done_full += 1
+            else:
+                seg = "\n".join(lines2[c0 - 1:c1 + (1 if op in ("dup", "comment-before", "blank-after") else 0)])
+                node = ast.parse(seg).body[0]
+                its = TR.items_of(list(node.body))
+                got = sorted({(cls, d["method"]) for d in TR.compare_items(rmap[cls]["members"], its)} - base)
+        except SyntaxError:
+            ctx.count("selftest:unparsable-mutant-skipped")
+            continue
+        ctx.corr_evals += 1
+        ctx.count("selftest-generated:%s:%s:%s" % (mode, "whole-file" if whole else "class", op))
+        want = [(cls, meth)] if mode == "mutate" else []
+        if (cls, meth) in base:
+            continue
+        if got != want:
+            ctx.disagree("translator-selftest-generated", {"mode": mode, "class": cls, "method": meth, "op": op,
+                                                           "line": lines[ln - 1].strip()[:100], "whole_file": whole}, want, got)
+
+
+PROBE_SPEC = (
+    "\n\nMETHOD_SPECS = tuple(METHOD_SPECS) + (\n    MethodSpec(\n        name=\"c20_probe\",\n"
+    "        source=\'\'\'\n    def c20_probe(self, n=100):\n        \"\"\"probe\"\"\"\n"
+    "        return \"%(class_name)s:\" + str(n PERCENTAGE 7)\n\'\'\',\n        class_names=[\"Input\", \"InputW\"],\n    ),\n)\n")
+
+
+def selftest_interpolation(ctx, data):
+    """second pass: a spec whose source mentions %(class_name)s (so that two classes get DIFFERENT statements from one
+    spec) is modelled: a scratch tree with such a spec and the matching per-class methods in nml.py must be quiet and
+    gap-free; the wrong class name in one of the two shipped copies must be reported at exactly that pair."""
+    hm_rel = "neuroml/nml/" + data["helper_file"]
+    nml_text, _ = nml_candidates()
+    spans = _STATE.get("nml_class_spans") or {}
+    if "Input" not in spans or "InputW" not in spans:
+        return
+    hm_text = open(os.path.join(fw.REPO, hm_rel)).read() + PROBE_SPEC
+    cache = _STATE.setdefault("cache", {})
+    base = {(f[2].get("class"), f[2].get("method")) for f in table_failures(data) if f[2].get("kind") == "method"}
+    root = tempfile.mkdtemp(prefix="verif_c20_")
+    try:
+        variants = [("agree", {"Input": "Input", "InputW": "InputW"})]
+        if ctx.tier == "thorough" or ctx.search_mult > 1:
+            variants.append(("wrong-name", {"Input": "Input", "InputW": "Input"}))
+        for tag, names in variants:
+            lines = nml_text.split("\n")
+            for cls in sorted(names, key=lambda c: -spans[c][1]):
+                end = spans[cls][1]
+                lines[end:end] = ["", "    def c20_probe(self, n=100):", "        return \"%s:\" + str(n %% 7)" % names[cls]]
+            before = set(cache)
+            try:
+                scratch_tree(root, {hm_rel: hm_text, "neuroml/nml/nml.py": "\n".join(lines)})
+                d2 = TR.extract(root, cache)
+                fails = table_failures(d2)
+            except Exception as e:  # noqa
+                ctx.disagree("translator-selftest-interpolation", {"variant": tag}, "pipeline runs", "crash %r" % (e,))
+                continue
+            finally:
+                for k in set(cache) - before:
+                    del cache[k]
+            got = sorted({(f[2].get("class"), f[2].get("method")) for f in fails if f[2].get("kind") == "method"} - base)
+            sp = next((x for x in d2["specs"] if x["name"] == "c20_probe"), None)
+            ctx.corr_evals += 1
+            ctx.count("selftest-interpolation:%s" % tag)
+            want = [] if tag == "agree" else [("InputW", "c20_probe")]
+            rows = sorted(c for c, _ in sp["per_class"]) if sp else None
+            if got != want or d2["gaps"] != data["gaps"] or rows != ["Input", "InputW"]:
+                ctx.disagree("translator-selftest-interpolation", {"variant": tag}, {"reported": want, "per_class_rows": ["Input", "InputW"]},
+                             {"reported": got, "per_class_rows": rows, "gaps": d2["gaps"][:2]})
+    finally:
+        shutil.rmtree(root, ignore_errors=True)
+
+
 # ================================================================================================ run / replay
 CORPUS = [
     # class_names values / class names that separate `match_name` from look-alikes (regex, substring, tuple)
@@ -676,10 +1213,14 @@ CORPUS = [
 def run(ctx):
     data = _STATE.get("data") or TR.extract(fw.REPO, _STATE.setdefault("cache", {}))
     _STATE["data"] = data
+    full = _STATE.get("full") or RR.build_full(fw.REPO, _STATE.setdefault("memo", {}))
+    _STATE["full"] = full
     if getattr(ctx, "broken", None):
-        # the driver needs the compiled table even when the theorems over it no longer build
+        # the driver needs the compiled tables even when the theorems over them no longer build
         fw.lake_build(LEAN_EXTRA)
-    # ---- 1. directed search over the table
+    import neuroml
+    import neuroml.nml.nml as nml_mod
+    # ---- 1. directed search over the tables
     classes = [c["name"] for c in data["binding"]]
     for c in data["binding"]:
         exp = expected_items(data, c["name"])
@@ -694,12 +1235,25 @@ def run(ctx):
     for x in sorted(set(classes) | set(data["schema"]["complex"])):
         ctx.seen(["type", x], nontrivial=True)
         ctx.count("type-pair")
+    # second pass: every class-body statement of the shipped file against the re-run regeneration
+    for c in full["shipped"]["classes"]:
+        for i, m in enumerate(c["members"]):
+            ctx.seen(["regen", c["name"], i, m[0]], nontrivial=True)
+            ctx.count("regen-pair:%s" % ("user" if m in RR.user_part(c["members"]) else
+                                         ("generated-method" if not m[0].startswith("<") else "class-level")))
+    for o in data.get("occurrences", []):
+        ctx.seen(["occurrence", o["file"], o["line"]], nontrivial=True)
+        ctx.count("schema-occurrence:%s" % o["role"])
     fails = table_failures(data)
-    import neuroml
+    named0 = {(f[2].get("class"), f[2].get("method")) for f in fails if f[2].get("kind") == "method"}
+    named0 |= {(f[2].get("class"), None) for f in fails if f[2].get("difference") == "order"}
+    fails += model_insertion_failures(data, full)
+    fails += regen_failures(full, named0)
     try:
         wf = writer_schema_file(neuroml)
     except Exception as e:  # noqa
         wf = "<writer failed: %r>" % (e,)
+    fails = attach_witnesses(ctx, fails, nml_mod, budget=ctx.n(6, 12))
     for k, what, case in fails:
         if k == "C20:version:writer-vs-header":
             what += "; the real NeuroMLWriter emits %r" % wf
@@ -712,10 +1266,11 @@ def run(ctx):
                         "from_specs": [[a, "%032x" % b, sp["name"]] for a, b, _, sp in e[:3]]})
     ctx.extra["exhaustive"] = True
     ctx.extra["domain"] = {"method_pairs": ctx.dist.get("method-pair", 0), "type_pairs": ctx.dist.get("type-pair", 0),
-                           "specs": len(data["specs"]), "binding_classes": len(classes)}
+                           "specs": len(data["specs"]), "binding_classes": len(classes),
+                           "class_body_statements": sum(len(c["members"]) for c in full["shipped"]["classes"]),
+                           "schema_occurrences": len(data.get("occurrences", []))}
 
     # ---- 2. the imported library, by independent routes
-    import neuroml.nml.nml as nml_mod
     if not os.path.abspath(nml_mod.__file__).startswith(os.path.abspath(fw.REPO) + os.sep):
         ctx.notes.append("neuroml imported from %s, not from %s" % (nml_mod.__file__, fw.REPO))
     hm_mod = TR.load_helper_module(os.path.join(fw.REPO, "neuroml", "nml", data["helper_file"]))
@@ -735,7 +1290,10 @@ def run(ctx):
         cn = data["specs"][i]["class_names"] if i < len(data["specs"]) else {"kind": "other"}
         for c in classes:
             model = (cn["kind"] == "str" and cn["v"] == c) or (cn["kind"] == "list" and c in cn["v"])
-            real = bool(sp.match_name(c))
+            try:
+                real = bool(sp.match_name(c))
+            except Exception as e:  # noqa
+                real = "raises %s" % type(e).__name__
             if real != model:
                 reordered.add(c)
                 ctx.fail("C20:insertion-rule-differs:%s->%s" % (sp.name, c),
@@ -799,24 +1357,54 @@ def run(ctx):
         cases.append(gen_match_case(ctx.rng, classes))
     run_match_stream(ctx, hm_mod, data, cases)
     run_table_stream(ctx, hm_mod, data)
+    run_regen_stream(ctx, data, full)
+    try:
+        # ---- 3b. behaviour: shipped module vs regenerated module on generated objects (no textual difference => none in behaviour)
+        behaviour_null_stream(ctx, data, full, nml_mod, ctx.n(120, 1500) * (1 if ctx.search_mult == 1 else 2))
 
-    # ---- 4. translator validation on scratch mutants
-    selftest(ctx, data, ctx.n(8, 120), ctx.n(6, 60))
+        # ---- 4. translator validation on scratch mutants
+        selftest(ctx, data, ctx.n(8, 120), ctx.n(6, 60))
+        selftest_generated(ctx, full, nml_mod, ctx.n(24, 400), ctx.n(1, 4))
+        selftest_interpolation(ctx, data)
+    finally:
+        ctx.extra["behaviour_call_timeouts"] = BH.TIMEOUTS[0]
+        cl = _STATE.pop("regen_cleanup", None)
+        _STATE.pop("regen_mod", None)
+        if cl:
+            cl()
 
 
 def replay(ctx, payload):
-    """re-evaluate one stored (class, method) / type / version case on fw.REPO's current tree"""
+    """re-evaluate one stored (class, method) / whole-file / type / version case on fw.REPO's current tree; for a
+    (class, member) pair also search again an input on which the shipped and the regenerated version behave differently"""
     case = payload.get("case", {})
     data = TR.extract(fw.REPO)
+    _STATE["data"] = data
     fails = table_failures(data)
     key = payload.get("key")
+    full = None
+    if case.get("kind") in ("regen", "method"):
+        full = RR.build_full(fw.REPO, _STATE.setdefault("memo", {}))
+        _STATE["full"] = full
+        named0 = {(f[2].get("class"), f[2].get("method")) for f in fails if f[2].get("kind") == "method"}
+        fails += model_insertion_failures(data, full) + regen_failures(full, named0)
     hit = [f for f in fails if f[0] == key] or [
-        f for f in fails if case.get("kind") == "method" and f[2].get("class") == case.get("class")
-        and f[2].get("method") == case.get("method")]
-    out = {"fails": bool(hit), "key": key, "case": case, "gaps": data["gaps"]}
+        f for f in fails if case.get("kind") in ("method", "regen") and f[2].get("class") == case.get("class")
+        and (f[2].get("method") or f[2].get("member")) == (case.get("method") or case.get("member"))]
+    out = {"fails": bool(hit), "key": key, "case": case, "gaps": data["gaps"] + (full["gaps"] if full else [])}
+    if hit and full is not None:
+        import neuroml.nml.nml as nml_mod
+        try:
+            hit = attach_witnesses(ctx, hit[:1], nml_mod, budget=1)
+        finally:
+            cl = _STATE.pop("regen_cleanup", None)
+            _STATE.pop("regen_mod", None)
+            if cl:
+                cl()
     if hit:
         out["what"] = hit[0][1]
         out["now"] = hit[0][2]
+        out["behavioural_witness"] = hit[0][2].get("behavioural_witness")
     if case.get("kind") == "method":
         c = next((c for c in data["binding"] if c["name"] == case.get("class")), None)
         exp = expected_items(data, case.get("class"))
@@ -824,6 +1412,12 @@ def replay(ctx, payload):
         g = [ast.unparse(s) for a, b, s in (c["items"] if c else []) if a == case.get("method")]
         out["helper_methods_normalised"] = h
         out["nml_py_normalised"] = g
+    if case.get("kind") == "regen" and full is not None and case.get("class"):
+        for side in ("regen", "shipped"):
+            c = next((c for c in full[side]["classes"] if c["name"] == case.get("class")), None)
+            out[("regenerated" if side == "regen" else "nml_py") + "_normalised"] = [
+                ast.unparse(s)[:4000] for a, b, s in (c["members"] if c else []) if a == case.get("member")]
     if case.get("kind") == "version":
         out["versions"] = {k: v for k, v in data["versions"].items() if k != "bundled"}
+        out["occurrences"] = data.get("occurrences")
     return out
